@@ -129,6 +129,37 @@ func families(run func(sp *ebnfref.Spec, family string)) {
 			mk("bare_self_reference", fmt.Sprintf("grammar g\n%s%s%s = %s ;\n%s = %s ;\n", helpers, use, name, strings.Join(alts[:2], " | "), name, second))
 		}
 	}
+	// (ii-d) one head written in several pieces: every sequence of two (quick) / three pieces, each an ordinary
+	// declaration `e = ... ;` or a rule handle inside a directive `@left < e = ... > ;` (a rule written there is an
+	// occurrence of the rule), over four alternatives alone and in pairs - the same alternative may come twice - with
+	// the rule that uses e before and after them
+	{
+		altPool := []string{`"a"`, `"b" e`, `[ e ] TK`, `x y`}
+		var bodies []string
+		for i, a := range altPool {
+			bodies = append(bodies, a)
+			for _, b := range altPool[i+1:] {
+				bodies = append(bodies, a+" | "+b)
+			}
+		}
+		var pieces []string
+		for _, b := range bodies {
+			pieces = append(pieces, fmt.Sprintf("e = %s ;\n", b), fmt.Sprintf("@left < e = %s > ;\n", b))
+		}
+		for i, p1 := range pieces {
+			for j, p2 := range pieces {
+				mk("one_head_in_pieces", fmt.Sprintf("grammar g\n%sstart = e \"c\" ;\n%s%s", helpers, p1, p2))
+				mk("one_head_in_pieces", fmt.Sprintf("grammar g\n%s%s%sstart = e \"c\" ;\n", helpers, p1, p2))
+				if (i+j)%5 == 0 {
+					for k, p3 := range pieces {
+						if (i+k)%4 == 0 {
+							mk("one_head_in_pieces", fmt.Sprintf("grammar g\n%s%sstart = e \"c\" ;\n%s%s", helpers, p1, p2, p3))
+						}
+					}
+				}
+			}
+		}
+	}
 	// (iii) single-character string terminals against non-terminals of the same spelled name
 	for ch, nm := range terminalNames {
 		for b := 0; b < 4; b++ {
